@@ -36,6 +36,7 @@ def key_sets(klepto):
         'alias-int-str': [1, '1', 'k3', 2],           # str(1) == str('1')
         'alias-dash': ['a-b', 'a_b', 'k3', 'ab'],      # '-' -> '_' in directory names
         'dash': ['a-b', '2024-01-31', 'x_y', '-'],     # dashes and underscores WITHOUT an aliasing partner
+        'slash': ['x/y', 'x', 'a/b/c', '/abs'],        # path separators inside keys (a stringmap key of a path argument)
         'prefixy': ['K_mean', 'TASK_7', '.I_x', 'K_K_'],
         'prefixy-id': ['K_mean', 'TASK_7', 'xI_', 'K_K_'],  # the same, identifiers only (source-text directory archives)  # contain the markers klepto uses in directory names (K_ entries, I_ staging)
         'tuple': [(1, 2), (1, '2'), ('a',), 'a'],
@@ -55,13 +56,13 @@ def key_sets(klepto):
 def keysets_for(backend):
     base = backend.split('+')[0]
     if base in ('file-json', 'dir-json'):
-        return ['str', 'alias-dash', 'dash', 'prefixy', 'keymap-hash', 'keymap-str', 'long']   # JSON object keys are strings
+        return ['str', 'alias-dash', 'dash', 'slash', 'prefixy', 'keymap-hash', 'keymap-str', 'long']   # JSON object keys are strings
     if base == 'dir-py':
         # the import-based reader needs K_<key> to be a module name: identifier-like strings only
         return ['str', 'alias-dash', 'dash', 'prefixy-id', 'keymap-hash']
     if base.startswith('sql'):
-        return ['str', 'alias-int-str', 'alias-dash', 'dash', 'prefixy', 'int', 'keymap-pickle', 'keymap-hash', 'keymap-str', 'long']
-    return ['str', 'alias-int-str', 'alias-dash', 'dash', 'prefixy', 'tuple', 'int', 'keymap-pickle', 'keymap-hash', 'keymap-str', 'keymap-raw', 'long']
+        return ['str', 'alias-int-str', 'alias-dash', 'dash', 'slash', 'prefixy', 'int', 'keymap-pickle', 'keymap-hash', 'keymap-str', 'long']
+    return ['str', 'alias-int-str', 'alias-dash', 'dash', 'slash', 'prefixy', 'tuple', 'int', 'keymap-pickle', 'keymap-hash', 'keymap-str', 'keymap-raw', 'long']
 
 
 # ---------------------------------------------------------------------------------------------
